@@ -29,6 +29,13 @@ Definition reduced (n : num) : Prop :=
 Lemma Qeqb_true a b : Qeqb a b = true <-> a == b.
 Proof. unfold Qeqb. rewrite Qeq_alt. destruct (a ?= b); split; congruence. Qed.
 
+(* x != x is false on every value of the model: an idealised float is an exact rational, a NaN is not representable *)
+Lemma Qeqb_refl a : Qeqb a a = true.
+Proof. apply Qeqb_true. reflexivity. Qed.
+
+Lemma p_ne_self a : p_ne a a = false.
+Proof. unfold p_ne. rewrite Qeqb_refl. reflexivity. Qed.
+
 Lemma Qeqb_inject a b : Qeqb (inject_Z a) (inject_Z b) = (a =? b)%Z.
 Proof.
   destruct (Z.eqb_spec a b) as [E|N].
@@ -130,6 +137,8 @@ Proof.
     unfold p_floordiv. cbn [toQ]. change (Qis_zero (inject_Z (Zpos (Qden q)))) with false. cbn iota.
     rewrite D, Z.div_1_r. reflexivity.
   - unfold g_simplify_number. cbn [p_is_float p_is_frac simp negb]. unfold simpf, p_modf. cbn [toQ]. rewrite H.
+    (* the NaN test `fraction != fraction`: dead for the model's floats *)
+    rewrite ?p_ne_self. cbn iota.
     unfold p_eq, p_ne. cbn [toQ].
     assert (E : Qeqb (q - inject_Z (Qtrunc q)) (inject_Z 0) = (Qden q =? 1)%positive).
     { rewrite <- (reduced_integral_iff q H).
